@@ -10,6 +10,8 @@ let fixed = List.mem "clip" variant
 let v_empty = List.mem "empty" variant
 let v_switch = List.mem "switch" variant
 let v_cache = List.mem "cache" variant    (* /repo commit 8f58d2d *)
+(* notes/fix_C03_8.diff (C03 F22): the update region is clipped to the request after the cursor redraw *)
+let v_reqclip = List.mem "reqclip" variant
 
 let zi s = z_of_int (int_of_string s)
 let zhex s = z_of_int (int_of_string ("0x" ^ s))
@@ -91,7 +93,7 @@ let pump_obs (tag : string) : unit =
   let h = match !hook with
     | Some (k, c) when pos k >= 0 -> Some (nat_of_int (pos k), c)
     | _ -> None in
-  match pump_rounds (nat_of_int 4) fixed v_empty !fmt h !scr (List.map snd l) [] with
+  match (if v_reqclip then pump_rounds_r else pump_rounds) (nat_of_int 4) fixed v_empty !fmt h !scr (List.map snd l) [] with
   | None -> print_endline (tag ^ " ERR")
   | Some (((s', cls'), outs), consumed) ->
       scr := s';
